@@ -222,10 +222,28 @@ def _enumerate_gates(circuit: Circuit) -> tp.Dict[Label, int]:
     result: tp.Dict[Label, int] = dict()
     for input_label in circuit.inputs:
         result[input_label] = len(result)
-    for gate_label, gate_ in circuit.gates.items():
-        if gate_.gate_type == gate.INPUT:
-            continue
-        result[gate_label] = len(result)
+    # Decoder requires operands of a gate to be defined before the gate itself,
+    # hence gates are enumerated operands first (the order of `circuit.gates` is
+    # kept whenever it already satisfies this requirement).
+    expanded: tp.Set[Label] = set()
+    for gate_label in circuit.gates:
+        stack = [gate_label]
+        while stack:
+            label = stack[-1]
+            if label in result:
+                stack.pop()
+                continue
+            pending = [
+                operand
+                for operand in circuit.get_gate(label).operands
+                if operand not in result
+            ]
+            if pending and label not in expanded:
+                expanded.add(label)
+                stack.extend(reversed(pending))
+            else:
+                result[label] = len(result)
+                stack.pop()
     return result
 
 
